@@ -289,7 +289,8 @@ class LocationDB(object):
             elif offset_loc_key is not None:
                 if name is not None:
                     # Check for already known name are checked above
-                    return self.add_location_name(offset_loc_key, name)
+                    self.add_location_name(offset_loc_key, name)
+                    return offset_loc_key
                 # Offset already known, no name specified
                 return offset_loc_key
 
